@@ -16,6 +16,7 @@ REPO = os.environ.get("VERIF_REPO", "/repo")
 BUILD = os.environ.get("VERIF_BUILD", os.path.join(VERIF, "build"))
 ENG = os.path.join(VERIF, "engines")
 CC = os.environ.get("VERIF_CC", "gcc")
+DEADLINE = 0   # seconds a harness may explore before it winds down (exhaustive:false); set in main()
 
 REPO_CFLAGS = ["-std=gnu99", "-DNDEBUG", "-g", "-O1", "-fno-builtin", "-fno-omit-frame-pointer", "-w",
                "-I%s/src/internal" % REPO, "-I%s/include/qlibc" % REPO, "-I%s/include" % REPO]
@@ -146,6 +147,7 @@ def run_env(job):
                         "quarantine_size_mb=64:symbolize=1"
     e["UBSAN_OPTIONS"] = "halt_on_error=1:print_stacktrace=1"
     e["TSAN_OPTIONS"] = "halt_on_error=0:report_signal_unsafe=0:second_deadlock_stack=0:history_size=2:exitcode=0"
+    e["VC_DEADLINE_S"] = str(DEADLINE)
     e["TMPDIR"] = os.path.join(BUILD, "tmp")
     os.makedirs(e["TMPDIR"], exist_ok=True)
     e.update(job.env)
@@ -227,7 +229,11 @@ def main(prop, tier, replay, njobs):
         print("replay rc=%d violations=%d" % (res["rc"], len(res["viols"])))
         return 1 if res["viols"] else 0
 
+    global DEADLINE
+    DEADLINE = float(os.environ.get("VERIF_DEADLINE", "") or (600 if tier == "quick" else 5400))
     jobs = spec["jobs"](tier, seed)
+    for j in jobs:
+        j.timeout = DEADLINE + 300
     # build (distinct binaries once)
     exes = {}
     for j in jobs:
